@@ -507,29 +507,54 @@ func c14Large(r *rt.Rec, rng *rand.Rand, nSubjects, reps int) {
 	ctx := context.Background()
 	var ts []*triple.Triple
 	p, q, nn := gen.MustImm("p"), gen.MustImm("q"), gen.MustImm("n")
+	// fan-out: every third subject has two "p" facts, every fourth three "q"
+	// facts (even subjects have one, odd ones none)
+	joinRows, optRows, o3Rows := 0, 0, 0
 	for i := 0; i < nSubjects; i++ {
 		s := gen.MustNode("/u", fmt.Sprintf("s%d", i))
+		np, nq := 1, 0
 		ts = append(ts, gen.MustTriple(s, p, triple.NewNodeObject(gen.MustNode("/u", fmt.Sprintf("o%d", i%7)))))
+		if i%3 == 0 {
+			np = 2
+			ts = append(ts, gen.MustTriple(s, p, triple.NewNodeObject(gen.MustNode("/u", "extra"))))
+		}
 		if i%2 == 0 {
+			nq = 1
 			ts = append(ts, gen.MustTriple(s, q, triple.NewNodeObject(gen.MustNode("/u", fmt.Sprintf("x%d", i)))))
 		}
+		if i%4 == 0 {
+			nq = 3
+			ts = append(ts, gen.MustTriple(s, q, triple.NewNodeObject(gen.MustNode("/u", fmt.Sprintf("y%d", i)))), gen.MustTriple(s, q, triple.NewNodeObject(gen.MustNode("/u", fmt.Sprintf("z%d", i)))))
+		}
 		ts = append(ts, gen.MustTriple(s, nn, triple.NewLiteralObject(gen.MustLit(literal.Int64, int64(i%5)))))
+		joinRows += np * nq
+		if nq == 0 {
+			optRows += np
+		} else {
+			optRows += np * nq
+		}
+		if i%7 == 3 {
+			if nq == 0 {
+				o3Rows++
+			} else {
+				o3Rows += nq
+			}
+		}
 	}
 	rng.Shuffle(len(ts), func(a, b int) { ts[a], ts[b] = ts[b], ts[a] })
 	data := bq.Data{"?g1": ts}
 	st := bq.NewStore(ctx, data)
-	half := (nSubjects + 1) / 2
 	type lq struct {
 		text string
 		outs []string
 		rows int
 	}
 	qs := []lq{
-		{`SELECT ?s, ?o, ?x FROM ?g1 WHERE { ?s "p"@[] ?o . ?s "q"@[] ?x };`, []string{"?s", "?o", "?x"}, half},
-		{`SELECT ?s, ?o, ?x FROM ?g1 WHERE { ?s "p"@[] ?o . OPTIONAL { ?s "q"@[] ?x } };`, []string{"?s", "?o", "?x"}, nSubjects},
-		{`SELECT ?s, ?o, ?x, ?v FROM ?g1 WHERE { ?s "q"@[] ?x . ?s "p"@[] ?o . ?s "n"@[] ?v };`, []string{"?s", "?o", "?x", "?v"}, half},
-		{`SELECT ?s, ?x, ?v FROM ?g1 WHERE { ?s "n"@[] ?v . OPTIONAL { ?s "q"@[] ?x } . ?s "p"@[] /u<o3> };`, []string{"?s", "?x", "?v"}, (nSubjects + 3) / 7},
-		{`SELECT ?o, count(?s) AS ?c FROM ?g1 WHERE { ?s "p"@[] ?o . ?s "n"@[] ?v } GROUP BY ?o;`, []string{"?o", "?c"}, 7},
+		{`SELECT ?s, ?o, ?x FROM ?g1 WHERE { ?s "p"@[] ?o . ?s "q"@[] ?x };`, []string{"?s", "?o", "?x"}, joinRows},
+		{`SELECT ?s, ?o, ?x FROM ?g1 WHERE { ?s "p"@[] ?o . OPTIONAL { ?s "q"@[] ?x } };`, []string{"?s", "?o", "?x"}, optRows},
+		{`SELECT ?s, ?o, ?x, ?v FROM ?g1 WHERE { ?s "q"@[] ?x . ?s "p"@[] ?o . ?s "n"@[] ?v };`, []string{"?s", "?o", "?x", "?v"}, joinRows},
+		{`SELECT ?s, ?x, ?v FROM ?g1 WHERE { ?s "n"@[] ?v . OPTIONAL { ?s "q"@[] ?x } . ?s "p"@[] /u<o3> };`, []string{"?s", "?x", "?v"}, o3Rows},
+		{`SELECT ?o, count(?s) AS ?c FROM ?g1 WHERE { ?s "p"@[] ?o . ?s "n"@[] ?v } GROUP BY ?o;`, []string{"?o", "?c"}, 8},
 	}
 	for _, lq := range qs {
 		old := runtime.GOMAXPROCS(1)
